@@ -68,3 +68,51 @@ Print Assumptions C09_process_blocks.
 Print Assumptions C09_sealing_call.
 Print Assumptions C09_elinv_genesis_reset.
 Print Assumptions C09_invariants_hold_on_every_run.
+
+(* ================= C09 through L1 over epochs (worker link; proofs/LinkEpochs*.v) =================
+   (1) one epoch of the model with the sealing policy = one element of reference_epochs; when the reference
+       seals, the instance left behind is the one an epoch starts with (epoch+1, exactly the validators of the
+       policy, LastDecidedFrame 0, empty root table / confirmed marks / index / forkless-cause cache, fresh
+       election; only the Build counter and the application's event store survive) — fresh_inst;
+   (2) from ANY instance, after Reset(epoch, validators) the run over the epochs' events equals the reference;
+   (3) hence the instance that reached an epoch by sealing and an instance Reset to that epoch and validator
+       set are observationally equal on the new epochs' events (any confirmed marks, counter, event store). *)
+From LV Require Import spec.ElectionSpec proofs.BftProps proofs.LinkVals proofs.LinkPerm proofs.LinkDefs
+  proofs.LinkEpoch proofs.LinkSeal proofs.LinkEpochs proofs.LinkEpochsCor proofs.LinkEpochsExample proofs.LinkExample.
+
+Theorem C09_epoch_matches_reference_and_seals_to_fresh_instance :
+  forall cap ep lam vals, raw_ok vals -> v_total vals < 2 ^ 31 ->
+  forall K pol seal nvs, (forall f a ch dl, policy_fn pol ep f a ch dl = if f =? seal then Some nvs else None) ->
+  forall D conf c es, valid_run vals D -> (forall e, In e D -> id_fresh K (eid (fe e))) -> c + N.of_nat (length D) <= K -> K < 2 ^ 192 ->
+  let i0 := fresh_inst ep (mk_vals vals) conf c es in let ops := abft_ops ep lam vals D in
+  let i' := run_inst cap pol sample i0 ops in
+  render_ep (run cap pol sample i0 ops) = (fst (fst (ref_epoch seal vals D)), snd (fst (ref_epoch seal vals D))) /\
+  (if snd (ref_epoch seal vals D)
+   then exists c' es' conf', i' = fresh_inst (ep + 1) nvs conf' c' es' /\ c' <= c + N.of_nat (length D)
+   else l_epoch (i_st i') = ep).
+Proof. exact epoch_raw. Qed.
+
+Theorem C09_reset_then_run_equals_reference : forall cap lam pol seal polr K i ep vals Ds, K < 2 ^ 192 ->
+  epochs_ok seal polr vals ep Ds -> pol_ok pol seal polr vals ep (length Ds) ->
+  (forall D e, In D Ds -> In e D -> id_fresh K (eid (fe e))) -> l_ctr (i_st i) + N.of_nat (total_events Ds) <= K ->
+  model_epochs cap lam pol polr (snd (fst (step cap pol sample i (OpReset ep vals)))) vals ep Ds = reference_epochs seal polr vals ep Ds.
+Proof. exact link_after_reset. Qed.
+
+Theorem C09_sealed_instance_equals_reset_instance : forall cap lam pol seal polr K ep vals Ds conf1 c1 es1 conf2 c2 es2, K < 2 ^ 192 ->
+  epochs_ok seal polr vals ep Ds -> pol_ok pol seal polr vals ep (length Ds) ->
+  (forall D e, In D Ds -> In e D -> id_fresh K (eid (fe e))) ->
+  c1 + N.of_nat (total_events Ds) <= K -> c2 + N.of_nat (total_events Ds) <= K ->
+  model_epochs cap lam pol polr (fresh_inst ep (mk_vals vals) conf1 c1 es1) vals ep Ds =
+  model_epochs cap lam pol polr (fresh_inst ep (mk_vals vals) conf2 c2 es2) vals ep Ds.
+Proof. exact sealed_equals_reset. Qed.
+
+(* non-vacuity: the two-epoch run of props/C10.v (both epochs seal); Reset of the final instance of that run
+   back to epoch 1 and re-running gives the reference's result again *)
+Example C09_link_example :
+  epochs_ok 1 0 ex_vals 1 me_Ds /\ pol_ok (mk_policy 1 0 ex_vals 1 2) 1 0 ex_vals 1 (length me_Ds) /\
+  model_epochs 200 (fun _ => 0) (mk_policy 1 0 ex_vals 1 2) 0 (start 1 ex_vals) ex_vals 1 me_Ds = reference_epochs 1 0 ex_vals 1 me_Ds.
+Proof. exact (conj me_ok (conj me_reset_pol me_refines_by_evaluation)). Qed.
+
+Print Assumptions C09_epoch_matches_reference_and_seals_to_fresh_instance.
+Print Assumptions C09_reset_then_run_equals_reference.
+Print Assumptions C09_sealed_instance_equals_reset_instance.
